@@ -161,7 +161,7 @@ class C16(Prop):
     rule = ("digests: real files of 9 sizes around multiples of the 1 MiB chunk x every hashlib algorithm usable by name vs one-shot "
             "hashlib, each file hashed twice with a content change in between (same size and mtime / new mtime / new size), read sizes "
             "vs the model's trace; add (incl. x/../ over real, symlinked and missing directories): relative paths with ./ // x/../ (and absolute ones) with and without a given "
-            "value; sections: typed/bare entries of lengths 31..65 in every order loaded by the real TreeInfo; tables written and read "
+            "value; sections: typed/bare entries of lengths 31..65 in every order loaded by the real TreeInfo, bare values of the three lengths that are not hex digits (foreign letters, non-ASCII digits, one foreign character or a line feed inside a digest: refused) and upper/mixed-case hex (accepted); tables written and read "
             "back; add_checksum sequences over mixed-case / same-name-two-spellings type names; hash: md5/sha1/sha224/sha256/sha384/sha512 "
             "of the MODEL (block-buffered absorber run through the code's chunk loop, a loop of any chunk size, or arbitrary chunk sizes) vs "
             "hashlib one-shot, hashlib fed the same chunks and compute_checksum on a real file, lengths on every padding boundary "
@@ -264,8 +264,9 @@ class C16(Prop):
         def raw(kind):
             if kind == "typed":
                 return "%s:%s" % (rng.choice(["sha256", "md5", "sha1", "sha512", "SHA256", "x"]), "%x" % rng.getrandbits(rng.choice([8, 128, 256])))
-            if kind == "bare-ok":
-                return "".join(rng.choice("0123456789abcdef") for _ in range(rng.choice([32, 40, 64])))
+            if kind == "bare-ok":                    # lower, upper and mixed case: A-F are hex digits too
+                return "".join(rng.choice(rng.choice(["0123456789abcdef", "0123456789abcdef", "0123456789ABCDEF", "0123456789abcdefABCDEF"]))
+                               for _ in range(rng.choice([32, 40, 64])))
             if kind == "bare-bad":
                 return "".join(rng.choice("0123456789abcdef") for _ in range(rng.choice([l for l in lens if l not in (0, 32, 40, 64)])))
             if kind == "multi":
@@ -275,7 +276,14 @@ class C16(Prop):
             if kind == "inner-blank":
                 return "sha256: ab cd"
             if kind == "nonhex":                     # right length, not hex digits (audit A5: looks like a digest by length only)
-                return rng.choice(["z" * 32, "\u0663" * 40, "g" * 64, "0" * 31 + "-", "\uff17" * 32])
+                n = rng.choice([32, 40, 64])
+                h = "".join(rng.choice("0123456789abcdefABCDEF") for _ in range(n))
+                k = rng.randrange(n)
+                return rng.choice(["z" * 32, "\u0663" * 40, "g" * 64, "0" * 31 + "-", "\uff17" * 32, "\uff21" * 64, "\u0966" * 40,       # full-width / Arabic-Indic / Devanagari digits
+                                   h[:k] + rng.choice("gGzZ-_ .xX\u00e9\uff10\u0661") + h[k + 1:],                                        # one foreign character anywhere in a digest
+                                   "0x" + h[2:], h[:-1] + "h", "G" + h[1:], h[:n // 2 - 1] + "  " + h[n // 2 + 1:],
+                                   h[:n // 2] + "\n " + h[n // 2 + 1:],                                                                 # an INI continuation line: a line feed inside the value
+                                   "zz", "not-a-digest", "\uff17" * 7])                                                                 # ... and of no recognised length
             if kind == "near-length":                # digests of other algorithms: sha224 / sha384 / sha512 lengths
                 return "".join(rng.choice("0123456789abcdef") for _ in range(rng.choice([56, 96, 128])))
             return "sha1:"
@@ -907,6 +915,6 @@ PROP = C16()
 
 MANIFEST = dict(
     technique="Lean 4 proofs by induction (block-buffered hash objects: streaming law for every block size and compression function; executable md5/sha1/sha2; read loop over them and over an abstract streaming hash, POSIX normpath, dict-assignment loop of the section reader, add_checksum histories) + decide on constants regenerated from the AST; differential run on real files, real TreeInfo loads and real Image objects",
-    text="C16_chunked/C16_compute: for an abstract streaming hash with the concatenation law, ANY content and ANY chunk size > 0 the read-until-empty loop returns the one-shot digest (chunk size and loop shape come from the source). C16_streaming_md/C16_chunked_md/C16_any_chunking_md/C16_compute_md: hashlib objects MODELLED as block-buffered absorbers (chaining value, pending bytes, length; update compresses complete blocks, digest pads and finalises) - update(update h a) b = update h (a++b) and update h [] = h PROVED for every block size > 0 and every compression function, hence the code's loop (any chunk size, any chunking) returns the one-shot digest with NO hypothesis about the hash; C16_chunked_md5/_sha1/_sha224/_sha256/_sha384/_sha512, C16_compute_by_name: the same for the executable md5/sha1/sha2 instances (test vectors checked by the kernel: C16_test_vectors; compared with hashlib on every run); C16_add_computes_md / C16_add_computes_by_name: add without a value records that digest (by name: the digest of the algorithm the type names); C16_md_padding: for every pending buffer and length the Merkle-Damgard padding is the smallest whole number of blocks holding pending + 0x80 + length and is compressed completely; C16_oneshot_md: the one-shot digest = all complete blocks compressed in order, length mod blockSize bytes and the total length given to the finaliser. C16_add/_absolute/_refusal/_invariant: the key is normpath(path), never absolute; absolute paths and failures leave the table alone. C16_pointwise: if a [checksums] section loads, every path maps to `typed` of ITS OWN raw value (type:value, or a bare digest typed by length 32/40/64, anything else rejected). C16_add_computes: add without a value records the one-shot digest of the full content of root/normpath(path). C16_roundtrip: write then read is the identity on tables free of ':'; C16_roundtrip_refuses: a table with ':' in a type or value is refused on read, never read as something else. C16_pointwise_legacy: the same pointwise reading for header-less files with relative keys. C16_image_monotone: over any add_checksum history a recorded value never changes.",
+    text="C16_chunked/C16_compute: for an abstract streaming hash with the concatenation law, ANY content and ANY chunk size > 0 the read-until-empty loop returns the one-shot digest (chunk size and loop shape come from the source). C16_streaming_md/C16_chunked_md/C16_any_chunking_md/C16_compute_md: hashlib objects MODELLED as block-buffered absorbers (chaining value, pending bytes, length; update compresses complete blocks, digest pads and finalises) - update(update h a) b = update h (a++b) and update h [] = h PROVED for every block size > 0 and every compression function, hence the code's loop (any chunk size, any chunking) returns the one-shot digest with NO hypothesis about the hash; C16_chunked_md5/_sha1/_sha224/_sha256/_sha384/_sha512, C16_compute_by_name: the same for the executable md5/sha1/sha2 instances (test vectors checked by the kernel: C16_test_vectors; compared with hashlib on every run); C16_add_computes_md / C16_add_computes_by_name: add without a value records that digest (by name: the digest of the algorithm the type names); C16_md_padding: for every pending buffer and length the Merkle-Damgard padding is the smallest whole number of blocks holding pending + 0x80 + length and is compressed completely; C16_oneshot_md: the one-shot digest = all complete blocks compressed in order, length mod blockSize bytes and the total length given to the finaliser. C16_add/_absolute/_refusal/_invariant: the key is normpath(path), never absolute; absolute paths and failures leave the table alone. C16_pointwise: if a [checksums] section loads, every path maps to `typed` of ITS OWN raw value (type:value, or a bare digest of 32/40/64 hex digits typed md5/sha1/sha256, anything else rejected). C16_bare_typed_iff: a bare value is accepted IFF it consists of 32, 40 or 64 characters of string.hexdigits (then md5/sha1/sha256, value verbatim); C16_bare_nonhex_refused: a bare value containing any non-hex character is refused whatever its length, and no section (current or header-less) holding it loads (F36 fixed; guard and digit table regenerated from the source: C16_legacy_table). C16_add_computes: add without a value records the one-shot digest of the full content of root/normpath(path). C16_roundtrip: write then read is the identity on tables free of ':'; C16_roundtrip_refuses: a table with ':' in a type or value is refused on read, never read as something else. C16_pointwise_legacy: the same pointwise reading for header-less files with relative keys. C16_image_monotone: over any add_checksum history a recorded value never changes.",
     note="hashlib: md5/sha1/sha224/sha256/sha384/sha512 are modelled and compared with hashlib.new(name) (one-shot, fed in chunks, and through compute_checksum on real files); for other algorithm names the generic block-buffered theorem applies with the compression function abstract (that OpenSSL's sha3/blake2/... have this shape is exercised on real files, not proved). The INI reader is not modelled here (the section is an association list fed from the real parser). Legacy header-less path rewriting (_fix_path) is modelled and compared but not part of the pointwise theorem.",
     ref="7/C16")
